@@ -258,7 +258,17 @@ func vfH_c06_trunc() {
 	if vfFlags == 0 {
 		err = Unmarshal(b, t)
 	} else {
-		_, err = Parse(b, t, ZeroCopy|DontMatchCaseInsensitiveStructFields)
+		// Parse decodes ONE value and hands back what follows it: input that continues with anything but white space
+		// after that value is "rejected" by Parse in the sense of this unit
+		var rest []byte
+		rest, err = Parse(b, t, ZeroCopy|DontMatchCaseInsensitiveStructFields)
+		if err == nil {
+			for _, c := range rest {
+				if c != ' ' && c != '\t' && c != '\n' && c != '\r' {
+					err = jFail{}
+				}
+			}
+		}
 	}
 	if !mutated && n == len(doc) {
 		vfAssert(err == nil, "intact-document-accepted")
